@@ -81,11 +81,14 @@ pub struct St {
     pub start: usize,
     /// how often the handler yields (Pending + self-wake) before it answers
     pub yields: usize,
+    /// the handler answers only once the client has received the complete response of this
+    /// other stream (it parks; the client wakes it)
+    pub wait_for: Option<usize>,
 }
 
 impl St {
     pub fn get(body: Body) -> St {
-        St { method: "GET", status: 200, headers: vec![], body, boxed: false, upload: None, client: Client::Normal, start: 0, yields: 0 }
+        St { method: "GET", status: 200, headers: vec![], body, boxed: false, upload: None, client: Client::Normal, start: 0, yields: 0, wait_for: None }
     }
     pub fn head(body: Body) -> St {
         St { method: "HEAD", ..St::get(body) }
@@ -113,6 +116,10 @@ impl St {
         self.yields = n;
         self
     }
+    pub fn wait_for(mut self, other: usize) -> St {
+        self.wait_for = Some(other);
+        self
+    }
     pub fn stalled(mut self) -> St {
         self.client = Client::Stalled;
         self
@@ -136,6 +143,8 @@ pub struct Scn {
     pub reset_by_drop: bool,
     /// part of the core set (explored one deviation deeper in the thorough tier)
     pub core: bool,
+    /// the service is ready for one call at a time (not ready while a handler is in flight)
+    pub one_at_a_time: bool,
 }
 
 /// Deterministic, position-dependent content: shifts, losses, duplications and cross-stream mixups
